@@ -254,7 +254,7 @@ class Gen:
         ins = [(self.names.fresh("a"), "INT") for _ in range(r.randint(1, 3))]
         loc = self.names.fresh("t")
         lines = ["FUNCTION %s : INT" % n, "VAR_INPUT"] + ["  %s : %s;" % v for v in ins] + ["END_VAR", "VAR", "  %s : INT;" % loc]
-        info = {"inputs": ins}
+        info = {"inputs": ins, "local": loc}
         calls = []
         if callee is not None:
             inst = self.names.fresh("inst")
@@ -343,7 +343,17 @@ def gen_valid(rng):
         fbs.append(g.fb(callee, enums, shadow))
     decls += fbs
     if rng.random() < 0.5:
-        decls.append(g.function(rng.choice(fbs) if rng.random() < 0.5 else None))
+        fn = g.function(rng.choice(fbs) if rng.random() < 0.5 else None)
+        # the function's INT local may carry the name of a function block's ENUMERATION variable: scopes are per unit, so this is
+        # valid, and what a transformation learns about a name in one unit must not reach the next (seed C06m: the kinds of a
+        # function's variables kept for the units folded after it, first insertion wins)
+        shared = [f.info["enum_var"][0] for f in fbs if "enum_var" in f.info]
+        if shared and rng.random() < 0.6:
+            import re as _re
+            ev = rng.choice(shared)
+            fn.lines = [_re.sub(r"\b%s\b" % _re.escape(fn.info["local"]), ev, l) for l in fn.lines]
+            fn.info["local"] = ev
+        decls.append(fn)
     prog = g.program(rng.choice(fbs) if rng.random() < 0.8 else None, glob)
     decls.append(prog)
     if glob is not None or rng.random() < 0.5:
